@@ -8,6 +8,7 @@ import (
 	"go/token"
 	"os"
 	"path/filepath"
+	"runtime/pprof"
 	"sort"
 	"strings"
 	"time"
@@ -66,7 +67,9 @@ func main() {
 	}
 	switch os.Args[1] {
 	case "run":
-		os.Exit(cmdRun(os.Args[2:]))
+		rc := cmdRun(os.Args[2:])
+		pprof.StopCPUProfile()
+		os.Exit(rc)
 	case "version":
 		fmt.Println("gosym 1")
 	default:
@@ -184,7 +187,13 @@ func cmdRun(args []string) int {
 	maxPaths := fs.Int("maxpaths", 0, "stop after this many paths (0 = no limit)")
 	solver := fs.String("solver", "z3", "primary solver")
 	sites := fs.Bool("sites", false, "report decision sites")
+	cpuprof := fs.String("cpuprofile", "", "write CPU profile")
 	fs.Parse(args)
+	if *cpuprof != "" {
+		f, _ := os.Create(*cpuprof)
+		pprof.StartCPUProfile(f)
+		defer pprof.StopCPUProfile()
+	}
 
 	start := time.Now()
 	data, err := os.ReadFile(*specPath)
